@@ -23,6 +23,7 @@ structure Scratch where
   pendW : Fid → Option Fid := fun _ => none       -- waiter picked by the NotifyOne of the pending unlock
   shared : Fid → Bool := fun _ => false           -- the pending acquisition is lock_shared
   lastTmo : Fid → Bool := fun _ => false          -- the cv wait that just re-locked had timed out
+  untilAbs : Fid → Option Nat := fun _ => none    -- absolute deadline of the pending `cv.wait_until`
   joining : Fid → Option Fid := fun _ => none     -- the harness uses `join` as a barrier inside a lock scenario
   deadlock : Bool := false
   crashed : Bool := false
@@ -87,6 +88,7 @@ def mxRule (s : Mx.State) : Mx.Label → String
   | .tlfRepark _ _ => "mx.tlfRepark"
   | .cvWait _ _ => "mx.cvWait"
   | .cvWaitFor _ _ _ d j => if d + j = 0 then "mx.cvWaitFor.now" else "mx.cvWaitFor"
+  | .cvWaitUntil _ _ t req j => if req + j ≤ t then "mx.cvWaitUntil.past" else "mx.cvWaitUntil"
   | .cvTimeout _ _ => "mx.cvTimeout"
   | .notifyOne _ w => if w.isSome then "mx.notifyOne.wake" else "mx.notifyOne.none"
   | .notifyAll _ => "mx.notifyAll"
@@ -118,7 +120,10 @@ def mxAct (s : Mx.State) (x : Scratch) (ts : List String) : Act Mx.Label :=
         else if obj = "cq" then
           match op with
           | "park" => .step (.cvWait f (x.pendW f)) x
-          | "park_timed" => .step (.cvWaitFor f (x.pendW f) (atT ts) (x.arg f) ((kv ts "j=").getD 0)) x
+          | "park_timed" =>
+              (match x.untilAbs f with
+               | some abs => .step (.cvWaitUntil f (x.pendW f) (atT ts) abs ((kv ts "j=").getD 0)) x
+               | none => .step (.cvWaitFor f (x.pendW f) (atT ts) (x.arg f) ((kv ts "j=").getD 0)) x)
           | "wake" => if res = "1" then .step (.cvTimeout f (atT ts)) x else .skip
           | "notify_one" => .step (.notifyOne f (pickAt s.cq ts res)) x
           | "notify_all" => .step (.notifyAll f) x
@@ -131,7 +136,10 @@ def mxAct (s : Mx.State) (x : Scratch) (ts : List String) : Act Mx.Label :=
         match rest with
         | "call" :: "lock" :: _ => .step (.lockStart f) x
         | "call" :: "try_lock_for" :: d :: _ => .note { x with arg := upd x.arg f (d.toNat?.getD 0) }
-        | "call" :: "wait_for" :: d :: _ => .note { x with arg := upd x.arg f (d.toNat?.getD 0) }
+        | "call" :: "wait_for" :: d :: _ => .note { x with arg := upd x.arg f (d.toNat?.getD 0), untilAbs := upd x.untilAbs f none }
+        | "call" :: "wait_until" :: d :: _ =>
+            .note { x with arg := upd x.arg f (d.toNat?.getD 0), untilAbs := upd x.untilAbs f (some (atT ts + d.toNat?.getD 0)) }
+        | "ret" :: "wait_pred" :: _ => .check (s.pc f = .idle ∧ f ∈ s.holders)
         | "call" :: "sleep" :: d :: _ => .step (.sleepStart f (atT ts) (d.toNat?.getD 0)) x
         | "ret" :: "sleep" :: _ => .step (.sleepWake f (atT ts)) x
         | "ret" :: "unlock" :: _ => .step (.unlock f (x.pendW f)) x
